@@ -62,7 +62,7 @@ def plan(tier, seed):
     for k_ in range(len(DEEP)):
         shards.append(("deep", k_))
     for li in (0, 3, 5):
-        shards.append(("threads", li))
+        shards.append(("threads", li, 1 if tier == "quick" else 2))
     k = seed % len(shards)
     return shards[k:] + shards[:k]
 
@@ -99,7 +99,8 @@ def _run_threads(desc):
     """two python threads ask ONE shared unitcell object for the same reflection list at the same time (workers indexing one phase):
     every schedule with one preemption at a statement of gethkls / makerings is executed; each caller must receive the complete,
     sorted, duplicate-free list for its limit, and the object must hold it afterwards"""
-    _, li = desc
+    li = desc[1]
+    bound = desc[2] if len(desc) > 2 else 1
     from ImageD11 import unitcell as uc_mod
     from vt import pysched
     sh = Shard()
@@ -135,7 +136,7 @@ def _run_threads(desc):
                 return listed(holder["uc"].peaks)
             return [a, b]
         nexec = 0
-        for sw, res, err in pysched.explore(make, lambda fr: fr.f_code in codes, bound=1, reset=reset, max_exec=6000):
+        for sw, res, err in pysched.explore(make, lambda fr: fr.f_code in codes, bound=bound, reset=reset, max_exec=6000 if bound == 1 else 60000):
             nexec += 1
             case = {"kind": "threads", "cell": cell, "sym": sym, "mode": mode, "switch_at_points": list(sw), "dsmax": lim}
             for t in range(2):
